@@ -74,6 +74,18 @@ func (j *Journal) addLocked(kind, coq, text string) int {
 	return len(j.events) - 1
 }
 
+// set fills a record that was reserved (appended with provisional content)
+// earlier: used for NewManager, whose position in the history is its call
+// while its content (was the session loaded?) is known at its return.
+func (j *Journal) set(i int, coq, text string) {
+	j.mu.Lock()
+	defer j.mu.Unlock()
+	if i < len(j.events) {
+		j.events[i].Coq = coq
+		j.events[i].Text = text
+	}
+}
+
 func (j *Journal) length() int {
 	j.mu.Lock()
 	defer j.mu.Unlock()
